@@ -82,6 +82,9 @@ def run(chk, repo):
     chk.rule("C16.start", "start loop: while self._not_playing and count >= self._not_playing[0][0]: (delta, newdata) = "
                           "popleft(); playing.append(newdata); count -= delta")
     inner = [s for s in mw.body if isinstance(s, ast.While)]
+    if len(inner) > 1:
+        # several queues may be drained by while loops: the start loop is the one that looks at the pending events
+        inner = [s for s in inner if "_not_playing" in unparse(s.test) or "count" in unparse(s.test)]
     chk.require(len(inner) == 1, "data_generator: start loop not found")
     sw = inner[0]
     t = sw.test
@@ -136,6 +139,17 @@ def run(chk, repo):
     fresh_before = any(unparse(s) == "to_remove = []" for s in mw.body[:mw.body.index(sl)])
     init_before = any(isinstance(s, ast.Assign) and unparse(s) == "to_remove = []" for s in body)
     ok = okloop and after_sum and (fresh_before or (reset_after and init_before))
+    if not rloops:
+        # the remembered iterators drained from a queue:  while to_remove: snd = to_remove.popleft() ; playing.remove(snd)
+        dl = [s for s in mw.body if isinstance(s, ast.While) and unparse(s.test) == "to_remove" and not s.orelse]
+        if len(dl) == 1 and len(dl[0].body) == 2 and isinstance(dl[0].body[0], ast.Assign) \
+                and isinstance(dl[0].body[0].targets[0], ast.Name) \
+                and unparse(dl[0].body[0].value) in ("to_remove.popleft()", "to_remove.pop(0)", "to_remove.pop()"):
+            x_ = dl[0].body[0].targets[0].id
+            anchor = dl[0]
+            init_q = any(isinstance(s_, ast.Assign) and unparse(s_.targets[0]) == "to_remove"
+                         and unparse(s_.value) in ("deque()", "[]", "collections.deque()") for s_ in body + list(mw.body[:mw.body.index(sl)]))
+            ok = unparse(dl[0].body[1]) == "self._playing.remove(%s)" % x_ and mw.body.index(dl[0]) > mw.body.index(sl) and init_q
     chk.decide(ok, "C16.sum", Wd, short(anchor, 120) if anchor is not None else "removal block missing",
                why="finished iterators leave the playing list after the summation loop, and the list is reset", node=mw)
     if not rm and anchor is not None:
